@@ -2304,6 +2304,11 @@ mut("ok-twin-C19-8-cross-compare", "benign", [], "PartialEq / PartialOrd between
 mut("ok-twin-C10-8-nth", "benign", [], "NewRcIter::nth releasing min(n, remain) shares and subtracting the same (S-C10-8 corrected), size_hint, "
     "ExactSizeIterator, FusedIterator", [{"patch": "selftest/twins/C10-8-nth-correct.diff"}])
 
+mut("ok-twin-C20-9-collecting-scope", "benign", [], "unpin raises and clears its two flags through an RAII CollectingScope whose Drop clears them; the thread-wide "
+    "flag is raised outside the debug assertion (S-C20-9 corrected)", [{"patch": "selftest/twins/C20-9-collecting-scope.diff"}])
+mut("dbg-with-closure-replace", "break", ["C20", "C07"], "the thread-wide flag is raised by KEY.with(|c| c.replace(true)) inside a debug_assert! (S-C20-9's slip on the plain tree)",
+    [ed(I, "            THREAD_COLLECTING.with(|c| c.set(true));", "            debug_assert!(!THREAD_COLLECTING.with(|c| c.replace(true)));")], ["DBG-PURE"])
+
 # behaviour-preserving refactorings written by sub-agents told to keep every interleaving's behaviour (selftest/refactors/)
 for f in sorted(glob.glob(os.path.join(HERE, "refactors", "*.diff"))):
     name = os.path.basename(f)[:-5]
